@@ -492,8 +492,11 @@ func (s *sched) enabled(step int) []event {
 			ev = append(ev, event{"deliver", c.i, 4})
 		}
 	}
-	ids, _ := s.w.Parked()
+	ids, sites := s.w.Parked()
 	for k := range ids {
+		if strings.HasPrefix(sites[k], "scope-keychain:") {
+			continue // a keychain service that does not answer for the rest of the run: held until the drain
+		}
 		ev = append(ev, event{"release", k, 2})
 	}
 	for j, c := range s.p.Scen.Ctl {
